@@ -193,3 +193,13 @@ Proof.
   - unfold sp_point_def; simpl. lra.
   - simpl. destruct (Rlt_dec 1 (3/2)); [|lra]. destruct (Rlt_dec 2 (3/2)); [lra|]. unfold last_seg. reflexivity.
 Qed.
+
+(* unfolding steps used by the correspondence goals (Models/EvalTac.v) *)
+Lemma sp_point_head_lt p1 l1 rest p : p1 < p -> sp_point ((p1, l1) :: rest) p = l1 + sp_from p1 l1 rest p.
+Proof. intros H; simpl. destruct (Rlt_dec p1 p); [reflexivity | contradiction]. Qed.
+Lemma sp_from_step_lt p0 l0 p1 l1 rest p : p1 < p ->
+  sp_from p0 l0 ((p1, l1) :: rest) p = seg p0 l0 p1 l1 + sp_from p1 l1 rest p.
+Proof. intros H; simpl. destruct (Rlt_dec p1 p); [reflexivity | contradiction]. Qed.
+Lemma sp_from_step_ge p0 l0 p1 l1 rest p : p <= p1 ->
+  sp_from p0 l0 ((p1, l1) :: rest) p = last_seg p0 l0 (lin p0 l0 p1 l1 p) p.
+Proof. intros H; simpl. destruct (Rlt_dec p1 p); [lra | reflexivity]. Qed.
